@@ -77,7 +77,7 @@ func classify(kind byte, body []byte) string {
 	return classOf(&c)
 }
 
-func texts(c *cas, variant int) map[string]string {
+func texts(c *cas, variant int, shared bool) map[string]string {
 	body := map[string]*strings.Builder{"a": {}, "as": {}, "b": {}, "c": {}}
 	present := map[key]bool{}
 	for _, i := range c.Ids {
@@ -111,11 +111,24 @@ func texts(c *cas, variant int) map[string]string {
 			fmt.Fprintf(body[m], "  leaf ref_%s_%s { type identityref { base %s; } }\n", i.Key[0], i.Key[1], i.Key.String())
 		}
 	}
+	// the prefix a module declares for itself is its own business: in the shared
+	// variant a, b and c all declare "pp" (importers still say a, b and c)
+	pa, pb, pc := "a", "b", "c"
+	fix := func(s, own string) string { return s }
+	if shared {
+		pa, pb, pc = "pp", "pp", "pp"
+		fix = func(s, own string) string {
+			// own-prefixed spellings inside the module follow its declared prefix
+			s = strings.ReplaceAll(s, " base "+own+":", " base pp:")
+			return s
+		}
+	}
 	return map[string]string{
-		"a":  "module a { namespace \"urn:a\"; prefix a; import b { prefix b; } include as;\n" + body["a"].String() + "}\n",
-		"as": "submodule as { belongs-to a { prefix a; } import b { prefix b; }\n" + body["as"].String() + "}\n",
-		"b":  "module b { namespace \"urn:b\"; prefix b;\n" + body["b"].String() + "}\n",
-		"c":  "module c { namespace \"urn:c\"; prefix c; import a { prefix a; } import b { prefix b; }\n" + body["c"].String() + "}\n",
+		"a":  "module a { namespace \"urn:a\"; prefix " + pa + "; import b { prefix b; } include as;\n" + fix(body["a"].String(), "a") + "}\n",
+		// the submodule imports b under a prefix of its own: prefixes resolve through the imports of the (sub)module that writes them
+		"as": "submodule as { belongs-to a { prefix a; } import b { prefix sb; }\n" + strings.ReplaceAll(body["as"].String(), " base b:", " base sb:") + "}\n",
+		"b":  "module b { namespace \"urn:b\"; prefix " + pb + ";\n" + fix(body["b"].String(), "b") + "}\n",
+		"c":  "module c { namespace \"urn:c\"; prefix " + pc + "; import a { prefix a; } import b { prefix b; }\n" + fix(body["c"].String(), "c") + "}\n",
 	}
 }
 
@@ -186,8 +199,22 @@ func exec(kind byte, body []byte) *core.Verdict {
 	if err := json.Unmarshal(body, &c); err != nil {
 		return &core.Verdict{Infra: "case: " + err.Error()}
 	}
+	v0 := judgeVariant(&c, len(body), false)
+	if !v0.OK || v0.Infra != "" {
+		return v0
+	}
+	v1 := judgeVariant(&c, len(body), true)
+	v1.N += v0.N
+	if v1.Sample == nil {
+		v1.Sample = v0.Sample
+	}
+	return v1
+}
+
+func judgeVariant(c0 *cas, variant int, shared bool) *core.Verdict {
+	c := *c0
 	v := &core.Verdict{OK: true, Class: classOf(&c), NT: len(c.Ids) >= 2}
-	t := texts(&c, len(body))
+	t := texts(&c, variant, shared)
 	text := t["a"] + t["as"] + t["b"] + t["c"]
 	fail := func(sig, f string, a ...any) *core.Verdict {
 		v.OK, v.Sig, v.Detail = false, sig, fmt.Sprintf(f, a...)+"\n"+text
